@@ -1,19 +1,12 @@
 package dbg
 import ("testing";"os";"fmt";"encoding/json";"verif/internal/work")
 func TestSrv(t *testing.T){
- b,_:=os.ReadFile("/tmp/srvprobe/swagger.json")
- p:=work.BuildServer(b,true)
+ b,_:=os.ReadFile("/tmp/c04-422.json")
+ var in struct{Spec json.RawMessage `json:"spec"`; Wire struct{Method,URL string; Headers map[string][]string; Body string} `json:"wire"`}
+ json.Unmarshal(b,&in)
+ p:=work.BuildServer(in.Spec,false)
  if !p.Usable(){ t.Fatalf("unusable %s: %s", p.Stage, p.Reason)}
- reqs:=[]work.SrvReq{{Op:"info"},
-  {Op:"request",Method:"get",URL:"/v1/p/7?lim=a,b",Headers:map[string][]string{"X-Key":{"good1"}},Plan:&work.Plan{Status:200,Body:json.RawMessage(`"hi"`)}},
-  {Op:"request",Method:"get",URL:"/v1/p/x?lim=a,b",Headers:map[string][]string{"X-Key":{"good1"}}},
-  {Op:"request",Method:"get",URL:"/v1/p/7",Headers:map[string][]string{"X-Key":{"bad"}}},
-  {Op:"call",Key:"GET /p/{id}",Params:map[string]json.RawMessage{"id":json.RawMessage("7"),"lim":json.RawMessage(`["a","b"]`)},Auth:map[string]string{"header:X-Key":"good2"},Plan:&work.Plan{Status:200,Body:json.RawMessage(`"hi"`),Headers:map[string][]string{"X-Rate":{"5"}}}},
-  {Op:"call",Key:"GET /p/{id}",Params:map[string]json.RawMessage{"id":json.RawMessage("7")},Auth:map[string]string{"header:X-Key":"good2"},Plan:&work.Plan{Status:404}},
-  {Op:"call",Key:"GET /p/{id}",Params:map[string]json.RawMessage{"id":json.RawMessage("7")},Auth:map[string]string{"header:X-Key":"good2"},Plan:&work.Plan{Status:418}},
-  {Op:"call",Key:"POST /q",Params:map[string]json.RawMessage{"body":json.RawMessage(`{"a":"x"}`)},Plan:&work.Plan{Status:500,Body:json.RawMessage(`"boom"`)}},
- }
- rs,err:=p.Exec(reqs)
+ rs,err:=p.Exec([]work.SrvReq{{Op:"request",Method:in.Wire.Method,URL:in.Wire.URL,Headers:in.Wire.Headers,Body:in.Wire.Body}})
  if err!=nil{t.Fatal(err)}
- for i,r:=range rs{ if i==0 { delete(r.Info,"swagger_json"); delete(r.Info,"flat_swagger_json") }; b,_:=json.Marshal(r); fmt.Println(i,string(b)) }
+ for _,r:=range rs{ b,_:=json.Marshal(r); fmt.Println(string(b)) }
 }
